@@ -5,7 +5,9 @@ package main
 import (
 	"fmt"
 	"go/types"
+	"regexp"
 	"strings"
+	"sync"
 
 	"golang.org/x/tools/go/ssa"
 )
@@ -116,8 +118,19 @@ func (x *Exec) intSort(t types.Type) (*Sort, bool, bool) { // sort, signed, ok
 	return nil, false, false
 }
 
+var byteRe = regexp.MustCompile(`\bbyte\b`)
+var runeRe = regexp.MustCompile(`\brune\b`)
+var typeKeyCache sync.Map
+
 func typeKey(t types.Type) string {
-	return types.TypeString(t, func(p *types.Package) string { return p.Path() })
+	if v, ok := typeKeyCache.Load(t); ok {
+		return v.(string)
+	}
+	s := types.TypeString(t, func(p *types.Package) string { return p.Path() })
+	s = byteRe.ReplaceAllString(s, "uint8")
+	s = runeRe.ReplaceAllString(s, "int32")
+	typeKeyCache.Store(t, s)
+	return s
 }
 
 func (x *Exec) leaves(t types.Type) []LeafInfo {
